@@ -421,6 +421,26 @@ def check_strip_comments(ctx, T):
                     hint_names.add(n.targets[0].id)
             elif isinstance(n, ast.Assign) and is_name(n.targets[0]) and isinstance(n.value, (ast.BoolOp, ast.Compare)) and mentions_hint(src(n.value)):
                 hint_names.add(n.targets[0].id)
+    # (b2) a Comment *group* is a run of comments (group_comments joins consecutive comments and the line breaks between them); its
+    # own ordinary comments are stripped by the bottom-up pass (f), so when the group itself is judged, a hint may sit at any
+    # position in it: the hint test on a group must look at every child, not at a fixed index
+    from ..astutil import alias_map, canon_text
+    amap = alias_map(f.node)
+    hint_tests = [n for n in own_nodes(f.node, include_lambdas=False) if isinstance(n, ast.Compare) and len(n.ops) == 1 and isinstance(n.ops[0], ast.In)
+                  and mentions_hint(src(n.comparators[0]))]
+    fixed, quantified = [], []
+    for n in hint_tests:
+        left = canon_text(src(n.left), amap)
+        if re.search(r'\.tokens\[-?\d+\]\.ttype$', left):
+            fixed.append(left)
+        elif any(isinstance(g, (ast.GeneratorExp, ast.ListComp)) and any(x is n for x in ast.walk(g)) and any(
+                'tokens' in canon_text(src(c.iter), amap) or 'flatten' in src(c.iter) for c in g.generators)
+                for g in own_nodes(f.node, include_lambdas=False)):
+            quantified.append(left)
+    ctx.ob('R8.3', 'b:hint-anywhere-in-group', f'{f.mod.relpath}:{f.node.lineno}',
+           'a Comment group is kept when any of its children is a hint (the test quantifies over the children)', bool(quantified) and not fixed,
+           f'the group test looks only at {fixed or "no child at all"}: in `/* c */\\n/*+ hint */` the run is one Comment group whose first child is the ordinary comment '
+           '(or, after the bottom-up pass removed it, the line break), so the whole group -- hint included -- is removed')
     w = [s for s in ast.walk(f.node) if isinstance(s, ast.While)]
     ctx.need(len(w) == 1, 'StripCommentsFilter._process: expected one while loop')
     w = w[0]
@@ -495,6 +515,17 @@ def check_strip_comments(ctx, T):
                     allowed = True
                 ok = ok and allowed
                 detail += f'; removal without separator under {[x for x in allfacts][-1:]}'
+                # "no left neighbour" only means "first child of this list": in a nested group the token in front of the group is the
+                # real neighbour, so the arm is safe only for the statement itself
+                none_arm = (f'{pv} is None', True) in flat or any(any((f'{pv} is None', True) in alt for alt in a_[1]) for a_ in alts)
+                top_only = any(pol and re.sub(r'\s', '', e) == f'{tl}.parentisNone' for e, pol in flat) or any(
+                    all(any(re.sub(r'\s', '', e) in (f'{tl}.parentisNone',) and pol for e, pol in alt) or (f'{pv} is None', True) not in alt for alt in a_[1])
+                    for a_ in alts if any((f'{pv} is None', True) in alt for alt in a_[1]))
+                if none_arm:
+                    ctx.ob('R8.3', 'd2:' + key, f'{f.mod.relpath}:{rm.lineno}',
+                           'a comment that is the first child of a nested group is not removed without a separator (the "no left neighbour" arm applies to the statement only)',
+                           top_only, f'the comment is removed under `{pv} is None` in any token list: in `1/*a*/as x` the comment is the first child of the inner '
+                           'Identifier, so "1" and "as" are fused')
             ctx.ob('R8.3', ('d:' if kinds == ['remove'] else 'a:') + key, f'{f.mod.relpath}:{rm.lineno}',
                    'the comment is removed; a separator is inserted unless the left neighbour is absent or "("', ok,
                    detail + ': two tokens can fuse (or a token other than the comment is removed)')
